@@ -203,10 +203,30 @@ def strip_comments(src):
     return ''.join(out)
 
 
-def scan_forbidden():
-    """No Admitted/admit/Axiom/Parameter/...; Variable/Hypothesis only inside a Section."""
+def coq_deps(root):
+    """Transitive closure of the NV files a .v file imports (From NV Require Import/Export ...)."""
+    seen, todo = [], [root]
+    while todo:
+        fn = todo.pop()
+        if fn in seen or not os.path.exists(os.path.join(COQ, fn)):
+            continue
+        seen.append(fn)
+        src = strip_comments(open(os.path.join(COQ, fn)).read())
+        for m in re.finditer(r'From\s+NV\s+Require\s+(?:Import|Export)?\s*([^.]*)\.', src):
+            for name in m.group(1).split():
+                todo.append(name + '.v')
+        for m in re.finditer(r'Require\s+(?:Import|Export)?\s+((?:NV\.[A-Za-z0-9_]+\s*)+)\.', src):
+            for name in m.group(1).split():
+                todo.append(name[3:] + '.v')
+    return seen
+
+
+def scan_forbidden(pid=None):
+    """No Admitted/admit/Axiom/Parameter/...; Variable/Hypothesis only inside a Section.  Scans the
+    files Properties_<pid>.v depends on (all of coq/ when pid is None)."""
     bad = []
-    for fn in sorted(os.listdir(COQ)):
+    files = sorted(os.listdir(COQ)) if pid is None else sorted(coq_deps('Properties_%s.v' % pid))
+    for fn in files:
         if not fn.endswith('.v'):
             continue
         src = strip_comments(open(os.path.join(COQ, fn)).read())
